@@ -436,12 +436,17 @@ func runBundled(c *lib.Ctx, scratch string, rng *rand.Rand) (int, error) {
 		{Kind: "delete", Asset: "testpic_2s", Rep: "V300"},
 		{Kind: "plain", Asset: "testpic_8s", Rep: "V300"},
 		{Kind: "delete-all", Asset: "testpic_6s"},
+		{Kind: "type-error", Asset: "testpic_2s", Rep: "V300", Offset: 0},
+		{Kind: "type-error", Asset: "testpic_2s", Rep: "A48", Offset: 4},
+		{Kind: "stale-init", Asset: "testpic_2s", Rep: "A48"},
+		{Kind: "stale-empty", Asset: "testpic_8s", Rep: "V300"},
+		{Kind: "stale-timescale", Asset: "testpic_6s", Rep: "V300"},
 	}
 	nRand := 5
 	if c.Thorough() {
 		nRand = 40
 	}
-	kinds := []string{"flip", "truncate", "empty-gz", "plain-garbage", "delete", "truncate", "flip"}
+	kinds := []string{"flip", "truncate", "empty-gz", "plain-garbage", "delete", "truncate", "flip", "type-error", "stale-media"}
 	for i := 0; i < nRand; i++ {
 		k := keys[rng.Intn(len(keys))]
 		d := damage{Kind: kinds[i%len(kinds)], Asset: filepath.Dir(k), Rep: strings.TrimSuffix(filepath.Base(k), "_data.json.gz")}
@@ -451,6 +456,8 @@ func runBundled(c *lib.Ctx, scratch string, rng *rand.Rand) (int, error) {
 			d.Offset = []int{1, 10, n / 3, n - 8, n - 1}[rng.Intn(5)]
 		case "flip":
 			d.Offset = rng.Intn(n)
+		case "type-error":
+			d.Offset = rng.Intn(6)
 		}
 		dmgs = append(dmgs, d)
 	}
@@ -458,6 +465,7 @@ func runBundled(c *lib.Ctx, scratch string, rng *rand.Rand) (int, error) {
 		d := d
 		e.runDamaged(scratch, rd, d, i, e.urls)
 	}
+	e.runHistory(scratch)
 	nBDistinct = e.nNontrivial
 	return e.n, nil
 }
@@ -615,5 +623,82 @@ func (e *bundledEnv) checkTiming() {
 				}
 			}
 		}
+	}
+}
+
+// runHistory: several server starts over ONE metadata directory while the asset changes:
+// write (asset with two segments) -> two more segments are added -> write -> one file is truncated ->
+// write -> cache-only server. The cache-only server must serve what a scanning server serves for the
+// asset as it is now, and the files must be those of a write run into an empty directory.
+func (e *bundledEnv) runHistory(scratch string) {
+	c := e.c
+	for _, shared := range []bool{false, true} {
+		name := "history-separate"
+		if shared {
+			name = "history-shared"
+		}
+		in := bundledInput{Part: "bundled", Instance: name}
+		hvod := filepath.Join(scratch, name, "vod")
+		hrd := filepath.Join(scratch, name, "rd")
+		fresh := filepath.Join(scratch, name, "fresh")
+		if shared {
+			hrd = hvod
+		}
+		dst := filepath.Join(hvod, "grow")
+		if err := copyTree(filepath.Join(lib.TestVodRoot, "testpic_2s"), dst); err != nil {
+			return
+		}
+		for _, extra := range []string{"Manifest_thumbs.mpd", "Manifest_imsc1.mpd", "Manifest_endNumber.mpd"} {
+			_ = os.Remove(filepath.Join(dst, extra))
+		}
+		held := map[string][]byte{}
+		for _, rep := range []string{"V300", "A48"} {
+			for _, n := range []string{"3.m4s", "4.m4s"} {
+				p := filepath.Join(dst, rep, n)
+				held[p], _ = os.ReadFile(p)
+				_ = os.Remove(p)
+			}
+		}
+		if _, err, pm := newServer(hvod, hrd, true); err != nil || pm != "" {
+			c.Fail("B:"+name, "start:"+name, fmt.Sprintf("write run 1: %v %s", err, pm), in)
+			continue
+		}
+		for p, b := range held {
+			_ = os.WriteFile(p, b, 0o644)
+		}
+		if _, err, pm := newServer(hvod, hrd, true); err != nil || pm != "" {
+			c.Fail("B:"+name, "start:"+name, fmt.Sprintf("write run 2: %v %s", err, pm), in)
+			continue
+		}
+		// one file cut in half, then a third write run
+		vf := filepath.Join(hrd, "grow", "V300_data.json.gz")
+		if b, err := os.ReadFile(vf); err == nil {
+			_ = os.WriteFile(vf, b[:len(b)/2], 0o644)
+		}
+		if _, err, pm := newServer(hvod, hrd, true); err != nil || pm != "" {
+			c.Fail("B:"+name, "start:"+name, fmt.Sprintf("write run 3: %v %s", err, pm), in)
+			continue
+		}
+		if !shared {
+			if _, err, pm := newServer(hvod, fresh, true); err == nil && pm == "" {
+				if !sameTree(cacheFiles(hrd), cacheFiles(fresh)) {
+					c.Fail("B:"+name+":files", "history:write-does-not-refresh", "after write / asset grows / write / file truncated / write the metadata files differ from those of a write run into an empty directory", in)
+				}
+			}
+		}
+		scan, err, pm := newServer(hvod, "", false)
+		if err != nil || pm != "" {
+			continue
+		}
+		ro, err, pm := newServer(hvod, hrd, false)
+		if err != nil || pm != "" {
+			c.Fail("B:"+name, "start:"+name, fmt.Sprintf("cache-only server: %v %s", err, pm), in)
+			continue
+		}
+		c.Count("B:instance:" + name)
+		scanAs := app.VerifC15Assets(scan.Srv)
+		sub := &bundledEnv{c: c, vod: hvod, scan: scan, scanAs: scanAs, scanRes: map[string]lib.Resp{}}
+		sub.compare(ro, in, "history", requestList(scanAs, false))
+		e.n += sub.n
 	}
 }
